@@ -175,6 +175,14 @@ class PyCells(dict):
 REPO_ROOTS = [os.path.realpath('/repo'), os.path.realpath(os.path.join(os.path.dirname(__file__), '..', 'contracts'))]
 
 
+def interpretable_class(cls):
+    try:
+        fn = os.path.realpath(inspect.getsourcefile(cls) or '')
+    except (TypeError, OSError):
+        return False
+    return any(fn.startswith(r + os.sep) for r in REPO_ROOTS)
+
+
 def interpretable(f):
     if not isinstance(f, types.FunctionType):
         return False
@@ -222,7 +230,9 @@ class Ctx:
 
     # decisions ---------------------------------------------------------------
     def feasible(self, extra):
-        r = solve.check(self.pc + self.axioms + list(extra), solvers=('z3',), timeout=self.FEAS_TIMEOUT)
+        # quantified hypotheses are dropped here (sound over-approximation of feasibility)
+        hyps = [h for h in self.pc + self.axioms if not tm.has_quantifier(h)]
+        r = solve.check(hyps + list(extra), solvers=('z3',), timeout=self.FEAS_TIMEOUT)
         return r['verdict'] != 'unsat'
 
     def decide(self, options):
@@ -1143,6 +1153,14 @@ class Interp:
             i = mro.index(o.cls)
             for k in mro[i + 1:]:
                 if name in k.__dict__:
+                    if name == '__init__' and issubclass(k, BaseException) and not interpretable_class(k):
+                        obj = o.self_
+
+                        def exc_init(interp, *a, **kw):
+                            obj.fields['args'] = tuple(a)
+                        return SpecFn('BaseException.__init__', exc_init)
+                    if name == '__init__' and k is object:
+                        return SpecFn('object.__init__', lambda interp, *a, **kw: None)
                     return self._bind_attr(k.__dict__[name], o.self_, k)
             self.raise_(AttributeError, name)
         if isinstance(o, (Sym, SymSeq, dict, list, tuple, str, set, frozenset, range)) and not isinstance(o, type):
